@@ -67,9 +67,9 @@ fn verif_grid() {
     let pool = ["k=a v=1", "k=a v=2", "k=b v=", "k=c v=7", "garbage"];
     let plain: Vec<&str> = PLAIN.iter().cloned().collect();
     for (bi, base) in sequences(&pool, 4).into_iter().enumerate() {
-        if base.len() == 4 && bi % 4 != 0 { continue; }
+        if base.len() == 4 && left_out(bi, 4) { continue; }
         for (si, st) in plain.iter().enumerate() {
-            if base.len() >= 3 && (bi + si) % 2 != 0 { continue; }
+            if base.len() >= 3 && left_out(bi + si, 2) { continue; }
             let (b1, st1) = (base.clone(), st.to_string());
             g.case(&format!("plain-b{}-s{}", bi, si), move || check_plain(&st1, &[b1]));
         }
